@@ -25,7 +25,65 @@ type PropSpec struct {
 var props = map[string]*PropSpec{}
 
 func prop(id string, ruleIDs []string, decided, notDecided string, assumptions ...string) {
-	props[id] = &PropSpec{ID: id, Rules: ruleIDs, Decided: decided, NotDecided: notDecided, Assumptions: assumptions}
+	// every property is also checked against the rule groups of the machinery it is observed through: a change that
+	// breaks property X is as often made in shared infrastructure (the frame's bookkeeping, the string cell layout,
+	// the error plumbing of a reader) as in the function X is named after
+	seen := map[string]bool{}
+	var all []string
+	add := func(rs ...string) {
+		for _, r := range rs {
+			if !seen[r] {
+				seen[r] = true
+				all = append(all, r)
+			}
+		}
+	}
+	add(ruleIDs...)
+	var groups []string
+	for _, g := range propGroups[id] {
+		add(ruleGroups[g]...)
+		groups = append(groups, g+" = "+strings.Join(ruleGroups[g], " "))
+	}
+	if len(groups) > 0 {
+		decided += " Shared rule groups also run for this property (a violation in them breaks what the property observes): " + strings.Join(groups, "; ") + "."
+	}
+	props[id] = &PropSpec{ID: id, Rules: all, Decided: decided, NotDecided: notDecided, Assumptions: assumptions}
+}
+
+// ruleGroups: rules about machinery that several properties are observed through.
+var ruleGroups = map[string][]string{
+	// integrity of a frame: immutability, no hidden state, index spaces, row alignment, column bookkeeping
+	"FRAME": {"R1", "R2c", "R6", "R7", "R8", "R13", "R42", "R128", "R66", "R125"},
+	// string and enum cells: layout, null flags, codes, tables, upper-casing
+	"CELLS": {"R19", "R33", "R34", "R73", "R74", "R82", "R94", "R95", "R57", "R101", "R121"},
+	// error plumbing of readers and writers
+	"IOERR": {"R24", "R29", "R30", "R31", "R41", "R50", "R56", "R61", "R110"},
+	// argument decoding and validation shared by all operations
+	"ARGS": {"R17", "R20", "R21", "R39", "R47", "R81", "R84", "R107", "R109", "R118", "R122", "R131"},
+	// the JSON writer
+	"JSON": {"R27", "R28", "R58", "R85", "R100", "R126"},
+}
+
+var propGroups = map[string][]string{
+	"C01": {"FRAME"},
+	"C02": {"FRAME", "CELLS", "ARGS"},
+	"C03": {"FRAME", "CELLS"},
+	"C04": {"FRAME", "CELLS", "ARGS"},
+	"C05": {"FRAME", "CELLS"},
+	"C06": {"FRAME", "CELLS", "ARGS"},
+	"C07": {"FRAME", "CELLS", "ARGS"},
+	"C08": {"FRAME", "CELLS", "ARGS"},
+	"C09": {"FRAME", "CELLS", "JSON"},
+	"C10": {"FRAME", "ARGS"},
+	"C11": {"FRAME"},
+	"C12": {"CELLS", "IOERR", "ARGS"},
+	"C13": {"CELLS", "IOERR", "FRAME"},
+	"C14": {"JSON", "IOERR", "FRAME", "CELLS"},
+	"C15": {"IOERR"},
+	"C16": {"JSON"},
+	"C17": {"FRAME", "CELLS", "ARGS"},
+	"C18": {"FRAME", "CELLS", "ARGS"},
+	"C19": {"IOERR", "FRAME", "CELLS"},
 }
 
 type evidence struct {
